@@ -7,7 +7,8 @@
   * `InvP`             where every retired object is (conservation, at most one disposal)
   * `InvE`             the epoch only grows: an epoch returned by fetch_add is below the current epoch
   * `InvG`             the two-phase argument of flip_and_wait
-  * `InvQ`             the epoch-tag lemma and quiescence of everything that is about to be disposed
+  * `InvQ`             the epoch-tag lemma (relative to the first flip) and quiescence of everything that is about to be disposed
+  * `InvT`             the epoch-tag lemma in its literal form: tag ≤ E returned by fetch_add => retired before that fetch_add
 -/
 import CdsVerif.Algo.RCU.Model
 namespace CdsVerif.Algo.RCU
@@ -59,7 +60,8 @@ inductive Trans (s : St) (t : Tid) : St → Prop
   | acqFail (own : List Obj) (x : Tid) (hl : s.locked = some x) (hpc : s.pc t = .acq own) :
       Trans s t { s with clock := s.clock + 1 }
   | fadd (own : List Obj) (hpc : s.pc t = .fadd own) :
-      Trans s t { s with epoch := s.epoch + 1, pc := upd s.pc t (.flip ⟨own, s.epoch⟩ false), clock := s.clock + 1 }
+      Trans s t { s with epoch := s.epoch + 1, faddClock := s.clock, pc := upd s.pc t (.flip ⟨own, s.epoch⟩ false),
+                         clock := s.clock + 1 }
   | flip (w : W) (r : Bool) (hpc : s.pc t = .flip w r) :
       Trans s t { s with gctl := !s.gctl, refClock := if r then s.refClock else s.clock,
                          pc := upd s.pc t (afterScan s.nthreads w r 0), clock := s.clock + 1 }
@@ -214,15 +216,34 @@ structure InvA (s : St) : Prop where
 theorem invA_init (b n c bc) : InvA (init b n c bc) := by
   constructor <;> simp [init]
 
-set_option maxHeartbeats 400000 in
 theorem invA_step {s : St} {t : Tid} {s' : St} (h : InvA s) (tr : Trans s t s') : InvA s' := by
   obtain ⟨a1, a2, a3, a4, a5, a6, a7, a8, a9, a10, a11, a12⟩ := h
-  cases tr
-  case iDestruct hd ht hq hpc =>
-    have hq' := allQuiet_spec hq
-    constructor <;> dsimp only <;> first | assumption | (intros; grind [upd, afterScan])
-  all_goals (constructor <;> dsimp only <;> first | assumption | (intros; grind [upd, afterScan]))
-
+  have hq : allQuiet s = true → ∀ u, u < s.nthreads → s.pc u = .idle ∧ (s.ctl u).nest = 0 := allQuiet_spec
+  refine ⟨?_, ?_, ?_, ?_, ?_, ?_, ?_, ?_, ?_, ?_, ?_, ?_⟩
+  · clear a2 a5 a8 a9 a10 a11 a12 hq
+    cases tr <;> dsimp only <;> first | assumption | (intros; grind [upd])
+  · clear a1 a3 a4 a5 a6 a7 a8 a9 a10 a11 a12 hq
+    cases tr <;> dsimp only <;> first | assumption | (intros; grind [upd])
+  · clear a1 a2 a4 a5 a6 a7 a8 a9 a10 a11 a12 hq
+    cases tr <;> dsimp only <;> first | assumption | (intros; grind [upd, afterScan])
+  · clear a1 a2 a3 a6 a7 a8 a9 a10 a11 a12 hq
+    cases tr <;> dsimp only <;> first | assumption | (intros; grind [upd, afterScan])
+  · clear a1 a2 a3 a4 a6 a7 a8 a9 a10 a11 a12 hq
+    cases tr <;> dsimp only <;> first | assumption | (intros; grind [upd, afterScan])
+  · clear a1 a2 a3 a4 a5 a7 a8 a9 a10 a11 a12 hq
+    cases tr <;> dsimp only <;> first | assumption | (intros; grind [upd, afterScan])
+  · clear a1 a2 a3 a4 a5 a8 a9 a10 a11 a12 hq
+    cases tr <;> dsimp only <;> first | assumption | (intros; grind [upd, afterScan])
+  · clear a1 a2 a3 a4 a5 a6 a7 a9 a10 a11 a12 hq
+    cases tr <;> dsimp only <;> first | assumption | (intros; grind [upd, afterScan])
+  · clear a1 a2 a3 a4 a5 a6 a7 a8 a10 a11 a12 hq
+    cases tr <;> dsimp only <;> first | assumption | (intros; grind [upd])
+  · clear a2 a3 a4 a5 a6 a9 a12
+    cases tr <;> dsimp only <;> first | assumption | (intros; grind [upd, afterScan])
+  · clear a1 a2 a3 a4 a5 a6 a7 a8 a9 a12 hq
+    cases tr <;> dsimp only <;> first | assumption | (intros; grind [upd, afterScan])
+  · clear a1 a2 a3 a4 a5 a6 a7 a8 a9 hq
+    cases tr <;> dsimp only <;> first | assumption | (intros; grind [upd, afterScan])
 
 /-! ### Mutual exclusion of the writer mutex; the epoch only grows -/
 
@@ -238,22 +259,44 @@ theorem invM_step {s : St} {t : Tid} {s' : St} (h : InvM s) (tr : Trans s t s') 
   cases tr
   all_goals (constructor <;> dsimp only <;> first | assumption | (intros; grind [upd, afterScan, holding]))
 
+/-- The epoch variable of a program point after fetch_add. -/
+def wOf : PC → Option W
+  | .flip w _ => some w
+  | .waitLd w _ _ => some w
+  | .waitG w _ _ _ => some w
+  | .release w => some w
+  | .clrPop w => some w
+  | .clrDisp w _ => some w
+  | _ => none
+
+theorem trans_pc_other {s s' : St} {t : Tid} (tr : Trans s t s') : ∀ t', t' ≠ t → s'.pc t' = s.pc t' := by
+  intro t' h
+  cases tr <;> simp [upd, h]
+
+/-- The epoch only grows. -/
+theorem epoch_mono {s s' : St} {t : Tid} (tr : Trans s t s') : s.epoch ≤ s'.epoch := by
+  cases tr <;> simp
+
+/-- An epoch returned by fetch_add is below the current epoch (buffered flavour). -/
 structure InvE (s : St) : Prop where
-  e1 : ∀ t w r, s.pc t = .flip w r → s.buffered = true → w.e < s.epoch
-  e2 : ∀ t w r i, s.pc t = .waitLd w r i → s.buffered = true → w.e < s.epoch
-  e3 : ∀ t w r i c, s.pc t = .waitG w r i c → s.buffered = true → w.e < s.epoch
-  e4 : ∀ t w, s.pc t = .release w → s.buffered = true → w.e < s.epoch
-  e5 : ∀ t w, s.pc t = .clrPop w → s.buffered = true → w.e < s.epoch
-  e6 : ∀ t w q, s.pc t = .clrDisp w q → s.buffered = true → w.e < s.epoch
+  e : ∀ t w, wOf (s.pc t) = some w → s.buffered = true → w.e < s.epoch
 
 theorem invE_init (b n c bc) : InvE (init b n c bc) := by
-  constructor <;> simp [init]
+  constructor; simp [init, wOf]
 
 theorem invE_step {s : St} {t : Tid} {s' : St} (h : InvE s) (tr : Trans s t s') : InvE s' := by
-  obtain ⟨e1, e2, e3, e4, e5, e6⟩ := h
-  cases tr
-  all_goals (constructor <;> dsimp only <;> first | assumption | (intros; grind [upd, afterScan]))
-
+  constructor
+  intro t' w hw hb
+  have hm := epoch_mono tr
+  by_cases ht : t' = t
+  · subst ht
+    have he := h.e t'
+    cases tr <;> simp only [upd_same] at hw <;> dsimp only at hb hm ⊢ <;> grind [wOf, afterScan]
+  · rw [trans_pc_other tr t' ht] at hw
+    have hbf : s'.buffered = s.buffered := by cases tr <;> rfl
+    rw [hbf] at hb
+    have := h.e t' w hw hb
+    omega
 
 /-! ### Conservation: where every retired object is -/
 
@@ -269,7 +312,6 @@ structure InvP (s : St) : Prop where
 theorem invP_init (b n c bc) : InvP (init b n c bc) := by
   constructor <;> simp [init, locals]
 
-set_option maxHeartbeats 400000 in
 theorem invP_step {s : St} {t : Tid} {s' : St} (h : InvP s) (tr : Trans s t s') : InvP s' := by
   obtain ⟨p1, p2, p3, p4, p5, p6⟩ := h
   have hme := fun p => p2 p t
@@ -446,26 +488,8 @@ def QBody (s : St) : PC → Prop
   | .disp p rest => Quiesced s p ∧ ∀ q, q ∈ rest → Quiesced s q
   | _ => True
 
-/-- The epoch variable of a program point after fetch_add. -/
-def wOf : PC → Option W
-  | .flip w _ => some w
-  | .waitLd w _ _ => some w
-  | .waitG w _ _ _ => some w
-  | .release w => some w
-  | .clrPop w => some w
-  | .clrDisp w _ => some w
-  | _ => none
-
 theorem invE_wOf {s : St} (hE : InvE s) (t : Tid) (w : W) (hw : wOf (s.pc t) = some w) (hb : s.buffered = true) :
-    w.e < s.epoch := by
-  obtain ⟨e1, e2, e3, e4, e5, e6⟩ := hE
-  cases hpc : s.pc t <;> rw [hpc] at hw <;> simp only [wOf, Option.some.injEq, reduceCtorEq] at hw <;> subst hw
-  · exact e1 _ _ _ hpc hb
-  · exact e2 _ _ _ _ hpc hb
-  · exact e3 _ _ _ _ _ hpc hb
-  · exact e4 _ _ hpc hb
-  · exact e5 _ _ hpc hb
-  · exact e6 _ _ _ hpc hb
+    w.e < s.epoch := hE.e t w hw hb
 
 /-- What an action may change, as far as `QBody` of the other threads is concerned. -/
 structure FrameQ (s s' : St) : Prop where
@@ -531,10 +555,6 @@ theorem QBody_frame {s s' : St} (F : FrameQ s s') (pc : PC)
     exact ⟨quiesced_frame F p (hloc p (by simp [locals])) (h9 p) h.1,
       fun q hq => quiesced_frame F q (hloc q (by simp [locals, hq])) (h9 q) (h.2 q hq)⟩
   all_goals trivial
-
-theorem trans_pc_other {s s' : St} {t : Tid} (tr : Trans s t s') : ∀ t', t' ≠ t → s'.pc t' = s.pc t' := by
-  intro t' h
-  cases tr <;> simp [upd, h]
 
 theorem frameQ_of_trans {s s' : St} {t : Tid} (tr : Trans s t s') : FrameQ s s' := by
   refine ⟨?_, ?_, ?_, ?_⟩
@@ -691,6 +711,113 @@ theorem invQ_disposing {s : St} (hA : InvA s) (hQ : InvQ s) (t : Tid) (p : Obj) 
     simp [this] at hs
 
 
+/-! ### The epoch-tag lemma in its literal form (retired before the fetch_add); the epoch only grows -/
+
+
+/-- Epoch-tag lemma: every tagged pointer whose tag is at most the epoch `w.e` returned by the fetch_add of the
+    current synchronize was retired (retire_ptr invoked) before that fetch_add. -/
+def TagBefore (s : St) (w : W) : Prop :=
+  s.buffered = true → ∀ q tag, Item s q tag → tag ≤ w.e → ∃ r, s.retiredAt q = some r ∧ r < s.faddClock
+
+def TBody (s : St) : PC → Prop
+  | .flip w _ => TagBefore s w
+  | .waitLd w _ _ => TagBefore s w
+  | .waitG w _ _ _ => TagBefore s w
+  | .release w => TagBefore s w
+  | _ => True
+
+theorem TBody_of_not_holding (s : St) (pc : PC) (h : holding pc = false) : TBody s pc := by
+  cases pc <;> simp_all [holding, TBody]
+
+theorem tagBefore_frame {s s' : St} (F : FrameQ s s') (hfc : s'.faddClock = s.faddClock) (w : W)
+    (he : s.buffered = true → w.e < s.epoch) (h : TagBefore s w) : TagBefore s' w := by
+  intro hb q tag hi ht
+  rw [F.hbf] at hb
+  rcases F.hitem q tag hi with h1 | h1
+  · obtain ⟨r, h2, h3⟩ := h hb q tag h1 ht
+    exact ⟨r, by rw [F.hret q (by simp [h2]), h2], by rw [hfc]; exact h3⟩
+  · have := he hb; omega
+
+structure InvT (s : St) : Prop where
+  body : ∀ t, TBody s (s.pc t)
+
+theorem invT_init (b n c bc) : InvT (init b n c bc) := by
+  constructor; simp [init, TBody]
+
+theorem trans_faddClock {s s' : St} {t : Tid} (tr : Trans s t s') :
+    s'.faddClock = s.faddClock ∨ ∃ own, s.pc t = .fadd own := by
+  cases tr
+  case fadd own hpc => exact Or.inr ⟨own, hpc⟩
+  all_goals (left; rfl)
+
+theorem invT_step {s : St} {t : Tid} {s' : St} (hA : InvA s) (hM : InvM s) (hP : InvP s) (hE : InvE s)
+    (h : InvT s) (tr : Trans s t s') : InvT s' := by
+  have F := frameQ_of_trans tr
+  have hir := invP_item_retired hP
+  have hme := hM.m1 t
+  -- the other threads
+  have hoth : ∀ t', t' ≠ t → TBody s' (s.pc t') := by
+    intro t' hne
+    rcases trans_faddClock tr with hfc | ⟨own, hpc⟩
+    · have hb := h.body t'
+      have hw := invE_wOf hE t'
+      cases hpc' : s.pc t' <;> rw [hpc'] at hb hw <;> first
+        | trivial
+        | exact tagBefore_frame F hfc _ (fun hb' => hw _ rfl hb') hb
+    · rw [hpc] at hme; simp only [holding, true_iff] at hme
+      exact TBody_of_not_holding _ _ (others_not_holding hM (Or.inl hme) t' hne)
+  suffices hnew : ∀ pc', s'.pc t = pc' → TBody s' pc' by
+    constructor
+    intro t'
+    by_cases ht : t' = t
+    · rw [ht]; exact hnew _ rfl
+    · rw [trans_pc_other tr t' ht]; exact hoth t' ht
+  intro pc' hpc'
+  have hcur := h.body t
+  have hw := invE_wOf hE t
+  cases tr
+  case fadd own hpc =>
+    simp only [upd_same] at hpc'; subst hpc'
+    intro hb q tag hi ht
+    have h1 : Item s q tag := by
+      simp only [Item] at hi ⊢; grind [upd]
+    obtain ⟨r, h3⟩ := Option.ne_none_iff_exists'.1 (hir q tag h1)
+    exact ⟨r, h3, hA.a9 q r h3⟩
+  case acqOk own hl hpc =>
+    simp only [upd_same] at hpc'
+    split at hpc'
+    · subst hpc'; trivial
+    · rename_i hnb; subst hpc'; intro hb; exact absurd hb hnb
+  case flip w r hpc =>
+    rw [hpc] at hcur hw
+    have hS := tagBefore_frame F rfl w (fun hb' => hw _ rfl hb') hcur
+    simp only [upd_same, afterScan] at hpc'
+    (repeat' split at hpc') <;> subst hpc' <;> exact hS
+  case waitLd w r i hpc =>
+    rw [hpc] at hcur hw
+    have hS := tagBefore_frame F rfl w (fun hb' => hw _ rfl hb') hcur
+    simp only [upd_same] at hpc'; subst hpc'; exact hS
+  case waitG w r i c hpc =>
+    rw [hpc] at hcur hw
+    have hS := tagBefore_frame F rfl w (fun hb' => hw _ rfl hb') hcur
+    simp only [upd_same, afterScan] at hpc'
+    (repeat' split at hpc') <;> subst hpc' <;> exact hS
+  case acqFail own x hl hpc => dsimp only at hpc'; rw [hpc] at hpc'; subst hpc'; trivial
+  all_goals (
+    apply TBody_of_not_holding
+    simp only [upd_same] at hpc'; subst hpc'
+    grind [holding])
+
+/-- The epoch-tag lemma as a statement about reachable-state invariants: a thread that is past its fetch_add (which
+    returned `w.e`) and still holds the mutex knows that every tagged pointer with tag ≤ `w.e` was retired before
+    that fetch_add. -/
+theorem epoch_tag_lemma {s : St} (hT : InvT s) (t : Tid) (w : W) (hw : wOf (s.pc t) = some w)
+    (hh : holding (s.pc t) = true) : TagBefore s w := by
+  have hb := hT.body t
+  cases hpc : s.pc t <;> rw [hpc] at hb hw hh <;> simp only [wOf, Option.some.injEq, reduceCtorEq] at hw <;>
+    first | (subst hw; exact hb) | simp [holding] at hh
+
+
 /-! ### All invariants together -/
 
 structure Inv (s : St) : Prop where
@@ -700,13 +827,15 @@ structure Inv (s : St) : Prop where
   E : InvE s
   G : InvG s
   Q : InvQ s
+  T : InvT s
 
 theorem inv_init (b n c bc) : Inv (init b n c bc) :=
-  ⟨invA_init b n c bc, invM_init b n c bc, invP_init b n c bc, invE_init b n c bc, invG_init b n c bc, invQ_init b n c bc⟩
+  ⟨invA_init b n c bc, invM_init b n c bc, invP_init b n c bc, invE_init b n c bc, invG_init b n c bc, invQ_init b n c bc,
+   invT_init b n c bc⟩
 
 theorem inv_trans {s : St} {t : Tid} {s' : St} (h : Inv s) (tr : Trans s t s') : Inv s' :=
   ⟨invA_step h.A tr, invM_step h.M tr, invP_step h.P tr, invE_step h.E tr, invG_step h.A h.M h.G tr,
-   invQ_step h.A h.M h.P h.E h.G h.Q tr⟩
+   invQ_step h.A h.M h.P h.E h.G h.Q tr, invT_step h.A h.M h.P h.E h.T tr⟩
 
 theorem inv_step (s : St) (t : Tid) (a : Act) (s' : St) (o : Obs) (h : Inv s) (hap : model.apply s t a = some (s', o)) :
     Inv s' := inv_trans h (trans_of_apply hap)
